@@ -208,6 +208,9 @@ class Interp(ExprMixin, CallMixin):
                     return [(st, False)]
                 if isinstance(b, Sentinel) and b.truthy:
                     return [(st, False)]   # a private `object()` marker is never an input value
+                if isinstance(b, Sentinel) and b.name in ("EMPTY", "UNCHANGED", "SENTINEL") \
+                        and not (a.prov & {ARG, USER}):
+                    return [(st, False)]   # argument-only markers are never stored state
                 known = self.fact(st, ("is", a.tok, vkey(b)))
                 res = self.decide(st, ("is", a.tok, vkey(b)))
                 if known is None and isinstance(b, (Const, Sentinel)):
